@@ -13,9 +13,18 @@ Transcription notes (what the C++ does, not what it should do):
 * `a / 0` is `numeric_limits::max()` and `a % 0` is `0` (no trap) — `operator/=`, `eval_divide_knuth`.
 * shifts by a *signed* count `≥ width` fill with the sign (`>>`) or zero (`<<`); by an *unsigned*
   count `≥ width` they fill with zero in both directions; negative counts shift the other way.
-* multiplication of exactly four limbs uses the unrolled `eval_multiply_n_by_n_to_lo_part`;
-  `≥ 129` limbs would use Karatsuba, which is **not** transcribed (`mulUnary` uses the schoolbook
-  routine there; the driver labels such cases).
+* multiplication of exactly four limbs uses the unrolled `eval_multiply_n_by_n_to_lo_part`
+  (`mulUnary` = the `eval_mul_unary` overload for fewer than 129 limbs).
+* `≥ 129` limbs (`number_of_limbs_karatsuba_threshold`) select the other `eval_mul_unary` overload:
+  `eval_multiply_kara_n_by_n_to_2n`, **transcribed** as `kara` — same recursion (`nh = n / 2`), same cutoff
+  (`n ≤ 48` → `eval_multiply_n_by_n_to_2n`), same carry/borrow propagation, and the same *memory*: the routine
+  works in place on the result array `r` (2n limbs) and the scratch array `t` (4n limbs), which
+  `eval_mul_unary` declares **without initialising them**.  `kara` therefore takes and returns the contents of
+  both arrays, and `opMulWith` takes their initial contents as an argument (`opMul` = zero-filled).  When the
+  limb count is halved down to an *odd* count above the cutoff (`karaOddSplit`), `nh = (n-1)/2` drops the top
+  limb of both operands and never writes `r[n-1]`, `r[2n-1]`, which are then *read*: the product is wrong and
+  depends on the initial contents (kernel-checked in `CnlProperties/C10.lean`).  `opMul` dispatches on the
+  limb count exactly as the C++ overload set does.
 * Knuth division (`divKnuth`) is Algorithm D with the multiplicative normalisation
   `d = 2^w / (v₁ + 1)`, including the `q̂` decrement loop (fuel `2^w + 1`; `none` = loop did not end)
   and the add-back step; `KStats` reports how often each fired.
@@ -158,7 +167,7 @@ def mulLo4 (w : Nat) (a0 a1 a2 a3 b0 b1 b2 b3 : Nat) : Limbs :=
                     + lo w (dbl w (a0 * b3)) + hi w a2b0 + hi w a1b1 + hi w a0b2)
     [lo w a0b0, lo w r1, lo w r2, r3]
 
-/-- `eval_mul_unary`: dispatch on the limb count (Karatsuba for ≥ 129 limbs is not transcribed) -/
+/-- `eval_mul_unary`, the overload for fewer than 129 limbs: schoolbook low part (unrolled for four limbs) -/
 def mulUnary (w : Nat) (a b : Limbs) : Limbs :=
   match a, b with
   | [a0, a1, a2, a3], [b0, b1, b2, b3] => mulLo4 w a0 a1 a2 a3 b0 b1 b2 b3
@@ -427,11 +436,133 @@ def opMod (f : Fmt) (a b : Limbs) : Option DivOut :=
     | some o => some { o with r := if an then negate f.w o.r else o.r }
   else divKnuth f.w a b (repMax f)
 
+/-! ## Karatsuba multiplication (`eval_mul_unary` for `≥ 129` limbs), transcribed with its memory -/
+
+/-- `number_of_limbs_karatsuba_threshold` -/
+def karaThreshold : Nat := 129
+/-- the schoolbook cutoff inside `eval_multiply_kara_n_by_n_to_2n` -/
+def karaCutoff : Nat := 48
+
+/-- `xs[off .. off+len)` -/
+def slice (xs : Limbs) (off len : Nat) : Limbs := (xs.drop off).take len
+/-- write `ys` into `xs` at offset `off` -/
+def splice (xs : Limbs) (off : Nat) (ys : Limbs) : Limbs := xs.take off ++ ys ++ xs.drop (off + ys.length)
+/-- exactly `len` limbs: `xs`, zero-padded or truncated -/
+def fitTo (len : Nat) (xs : Limbs) : Limbs := (xs ++ zeros (len - xs.length)).take len
+
+/-- inner loop of `eval_multiply_n_by_n_to_2n` for one `a_i`: `r[i+j] += a_i·b_j`, then `r[i+count] = carry` -/
+def mulRowFull (w : Nat) (ai : Nat) : Limbs → Limbs → Nat → Limbs
+  | bj :: bs, rk :: rs, c =>
+    let c1 := dbl w (c + dbl w (ai * bj))
+    let c2 := dbl w (c1 + rk)
+    lo w c2 :: mulRowFull w ai bs rs (hi w c2)
+  | [], _ :: rs, c => lo w c :: rs
+  | _, [], _ => []
+
+def mul2nAux (w : Nat) : Limbs → Limbs → Limbs → Limbs
+  | [], _, r => r
+  | ai :: as, b, r =>
+    match (if ai ≠ 0 then mulRowFull w ai b r 0 else r) with
+    | [] => []
+    | r0 :: rt => r0 :: mul2nAux w as b rt
+
+/-- `eval_multiply_n_by_n_to_2n(r, a, b, count)`: the full `2·count`-limb schoolbook product -/
+def mul2n (w : Nat) (a b : Limbs) : Limbs := mul2nAux w a b (zeros (2 * a.length))
+
+/-- `eval_multiply_kara_propagate_carry(t, n, carry)` on the `n` limbs given -/
+def karaCarry (w : Nat) : Limbs → Nat → Limbs
+  | [], _ => []
+  | x :: xs, c =>
+    if c = 0 then x :: xs
+    else
+      let uv := dbl w (x + c)
+      lo w uv :: karaCarry w xs (hi w uv)
+
+/-- `eval_multiply_kara_propagate_borrow(t, n, has_borrow)` -/
+def karaBorrow (w : Nat) : Limbs → Bool → Limbs
+  | [], _ => []
+  | x :: xs, b =>
+    if !b then x :: xs
+    else
+      let uv := dbl w (x + 2^(2*w) - 1)
+      lo w uv :: karaBorrow w xs (hi w uv != 0)
+
+/-- `eval_multiply_kara_n_by_n_to_2n(r, a, b, n, t)`.  `a`, `b`: the `n` limbs at the operand pointers;
+`r`: the `2n` limbs at the result pointer (contents on entry); `t`: the scratch storage from pointer `t`
+to its end.  Returns the contents of `r` and `t` on exit.  The first argument is recursion fuel (`≥ log₂ n`). -/
+def kara (w : Nat) : Nat → Nat → Limbs → Limbs → Limbs → Limbs → Limbs × Limbs
+  | 0, _, _, _, r, t => (r, t)
+  | fuel+1, n, a, b, r, t =>
+    if n ≤ karaCutoff then (splice r 0 (mul2n w (a.take n) (b.take n)), t)
+    else
+      let nh := n / 2
+      let a0 := slice a 0 nh
+      let a1 := slice a nh nh
+      let b0 := slice b 0 nh
+      let b1 := slice b nh nh
+      -- Step 1: a1*b1 -> r2 = r + n,  a0*b0 -> r0 = r,  r[0..2n) -> t0
+      let c1 := kara w fuel nh a1 b1 (slice r n (2 * nh)) t
+      let r := splice r n c1.1
+      let c2 := kara w fuel nh a0 b0 (slice r 0 (2 * nh)) c1.2
+      let r := splice r 0 c2.1
+      let t := splice c2.2 0 (r.take (2 * n))
+      -- Step 2: r1 += t2 ; r1 += t0   (r1 = r + nh, n limbs; carries go into r3 = r + n + nh, nh limbs)
+      let s := addN w (slice r nh n) (slice t n n) 0
+      let r := splice r nh s.1
+      let r := splice r (n + nh) (karaCarry w (slice r (n + nh) nh) s.2)
+      let s := addN w (slice r nh n) (slice t 0 n) 0
+      let r := splice r nh s.1
+      let r := splice r (n + nh) (karaCarry w (slice r (n + nh) nh) s.2)
+      -- Step 3: |a1-a0| -> t0 (left untouched when equal)
+      let ca := cmpRanges a1 a0
+      let t := if ca = 1 then splice t 0 (subN w a1 a0 false).1
+               else if ca = -1 then splice t 0 (subN w a0 a1 false).1 else t
+      -- Step 4: |b0-b1| -> t1 = t + nh
+      let cb := cmpRanges b0 b1
+      let t := if cb = 1 then splice t nh (subN w b0 b1 false).1
+               else if cb = -1 then splice t nh (subN w b1 b0 false).1 else t
+      -- Step 5: t0*t1 -> t2 = t + n, scratch t4 = t + 2n
+      let c3 := kara w fuel nh (slice t 0 nh) (slice t nh nh) (slice t n (2 * nh)) (t.drop (2 * n))
+      let t := (splice t n c3.1).take (2 * n) ++ c3.2
+      -- Step 6: r1 ±= t2 (n limbs)
+      if ca * cb = 1 then
+        let s := addN w (slice r nh n) (slice t n n) 0
+        let r := splice r nh s.1
+        (splice r (n + nh) (karaCarry w (slice r (n + nh) nh) s.2), t)
+      else if ca * cb = -1 then
+        let s := subN w (slice r nh n) (slice t n n) false
+        let r := splice r nh s.1
+        (splice r (n + nh) (karaBorrow w (slice r (n + nh) nh) s.2), t)
+      else (r, t)
+
+/-- the Karatsuba overload of `eval_mul_unary`: `init` = the contents the two local arrays `result`
+(2n limbs) and `t` (4n limbs) happen to have (the code does not initialise them); the low `n` limbs
+of `result` are copied back -/
+def mulKaratsuba (w : Nat) (init : Limbs × Limbs) (a b : Limbs) : Limbs :=
+  let n := a.length
+  (kara w n n a b (fitTo (2 * n) init.1) (fitTo (4 * n) init.2)).1.take n
+
+def karaOddSplitAux : Nat → Nat → Bool
+  | 0, _ => false
+  | fuel+1, n => decide (n > karaCutoff) && (n % 2 == 1 || karaOddSplitAux fuel (n / 2))
+
+/-- halving the limb count reaches an odd count above the schoolbook cutoff: that level splits into two
+halves of `(n-1)/2` limbs, drops the top limb of each operand and reads two limbs it never wrote -/
+def karaOddSplit (n : Nat) : Bool := karaOddSplitAux n n
+
+/-- the instantiations whose `*` is defective: Karatsuba is selected and meets an odd split -/
+def karaDefect (n : Nat) : Bool := decide (n ≥ karaThreshold) && karaOddSplit n
+
 /-! ## the binary operators as `cnl::wide_integer` reaches them (`uintwide_t(u).operator op=(v)`) -/
 
 def opAdd (w : Nat) (a b : Limbs) : Limbs := (addN w a b 0).1
 def opSub (w : Nat) (a b : Limbs) : Limbs := (subN w a b false).1
-def opMul (w : Nat) (a b : Limbs) : Limbs := mulUnary w a b
+/-- `operator*=`: the overload set of `eval_mul_unary` dispatches on the limb count; `init` is only
+looked at by the Karatsuba overload (its uninitialised local arrays) -/
+def opMulWith (w : Nat) (init : Limbs × Limbs) (a b : Limbs) : Limbs :=
+  if a.length ≥ karaThreshold then mulKaratsuba w init a b else mulUnary w a b
+/-- `operator*=` with zero-filled local arrays -/
+def opMul (w : Nat) (a b : Limbs) : Limbs := opMulWith w ([], []) a b
 
 def binOp (f : Fmt) (op : BinOp) (a b : Limbs) : Res Limbs :=
   match op with
